@@ -49,6 +49,26 @@ func (fr *Frame) callVals(c *ssa.CallCommon, fv *Val, args []*Val, argVals []ssa
 		return fr.builtin(b, c, args, argVals, pos)
 	}
 	rt := resultType(c)
+	{
+		what := ""
+		if c.IsInvoke() {
+			what = ifaceMethodName(c)
+		} else if sc := c.StaticCallee(); sc != nil {
+			what = sc.String()
+		} else if fv != nil && fv.Fn != nil {
+			what = fv.Fn.String()
+		}
+		if what != "" {
+			bind := map[string]*Val{}
+			for i, a := range args {
+				bind[fmt.Sprintf("arg%d", i)] = a
+			}
+			if c.IsInvoke() && fv != nil {
+				bind["recv"] = fv
+			}
+			fr.anchorAsserts("call", what, pos, bind)
+		}
+	}
 	if c.IsInvoke() {
 		recv := fv
 		name := ifaceMethodName(c)
